@@ -348,7 +348,14 @@ def rule_r6(ctx) -> List[R.Inst]:
                 why = (f"charts are filtered out of the stacked frame ({unparse(g.ifs[0])}) while __setitem__ pairs rows with ALL "
                        f"charts by position: rows shift to the wrong chart")
             elif unparse(g.iter) == "self.stackers" and unparse(lcs[0].elt) == f"{unparse(g.target)}[{item_p}]":
-                good = True
+                v = rets[0].value
+                if isinstance(v, ast.Call) and unparse(v.func).endswith("DataFrame") and v.args and v.args[0] is lcs[0]:
+                    good = True
+                elif "inner" in unparse(v):
+                    why = ("the per-chart rows are joined with join='inner': the frame is cut to the shortest chart, so the tail rows "
+                           "of longer charts become NaN on write-back")
+                else:
+                    why = f"the per-chart rows are combined by '{unparse(v)[:60]}', not as one DataFrame row per chart"
     insts.append(R.ok("C12.R6", "MapSet.Stacker.__getitem__", file, line, idiom="one row per stacker: [s[item] for s in self.stackers]") if good else
                  R.viol("C12.R6", "MapSet.Stacker.__getitem__", file, line, why,
                         construct=unparse(rets[0].value)[:160] if rets else "no return"))
